@@ -123,7 +123,7 @@ def _clone(v, memo):
     if isinstance(v, SObj):
         if id(v) in memo:
             return memo[id(v)]
-        o = SObj(v.cls)
+        o = SObj(v.cls, none_if=getattr(v, 'none_if', None))
         memo[id(v)] = o
         o.fields = {k: _clone(x, memo) for k, x in v.fields.items()}
         return o
@@ -157,6 +157,7 @@ def _clone(v, memo):
         o.finite = v.finite
         o.frozen = getattr(v, 'frozen', False)
         o.maybe_int = getattr(v, 'maybe_int', False)
+        o.tok = v.tok
         memo[id(v)] = o
         return o
     if isinstance(v, SArr) and v.store is not None:
@@ -173,6 +174,7 @@ class ArrStore:
         self.kind = kind
         self.name = name
         self.finite = None    # per-element finiteness predicate (None = all finite)
+        self.tok = z3.Int(f'arrid!{next(_fw)}')   # identity of the memory (id_() in contracts)
 
 
 class SwapStore:
@@ -635,10 +637,13 @@ class Executor:
         index (so distinct iterations touch distinct slots and never read another slot), and
         `L.append(e)` for lists L that occur only so; locals are written before read in an
         iteration; on every path of an iteration each list is appended to exactly once."""
-        if not getattr(it, 'enumerated', False) or not isinstance(node.target, ast.Tuple) \
-                or len(node.target.elts) != 2 or not isinstance(node.target.elts[0], ast.Name):
-            raise Unsupported('not a loop over enumerate(...) with a (counter, element) target')
-        kname = node.target.elts[0].id
+        if getattr(it, 'enumerated', False):
+            if not isinstance(node.target, ast.Tuple) or len(node.target.elts) != 2 \
+                    or not isinstance(node.target.elts[0], ast.Name):
+                raise Unsupported('loop over enumerate(...) without a (counter, element) target')
+            kname = node.target.elts[0].id
+        else:
+            kname = None            # plain `for x in seq`: appends only, no per-slot arrays
         arrays, lists, written = set(), set(), set()
 
         def scan(stmts):
@@ -721,7 +726,7 @@ class Executor:
                 if oc[0] != 'fall':
                     raise Unsupported('loop body leaves the loop')
                 cond = z3.And(*ps.pc[npc:]) if len(ps.pc) > npc else z3.BoolVal(True)
-                avals = {nm: ps.env[nm].fn((k,)) for nm in arrays}
+                avals = {nm: ps.env[nm].fn((num_term(k),)) for nm in arrays}
                 lvals = {}
                 for nm in lists:
                     if len(ps.env[nm]) != 1:
@@ -734,16 +739,30 @@ class Executor:
             paths = iteration(k)
             sink = SINK[-1] if SINK else None
             val = None
-            for cond, avals, lvals, ps in reversed(paths):
-                v = (avals if kind == 'a' else lvals)[nm]
-                if not is_num(v):
-                    if len(paths) == 1:
-                        return v
-                    raise Unsupported('non-scalar value merged over the branches of a loop body')
-                val = v if val is None else self.ite(cond, v, val)
-                if sink is not None:
+            if sink is not None:
+                # what was learned (callee postconditions) and what must hold (callee
+                # preconditions, bounds) while computing element k belongs to its reader; facts of a
+                # branch hold under that branch's condition
+                for cond, avals, lvals, ps in paths:
                     for lab, hyps, f in ps.checks[len(base.checks):]:
                         sink.lazy_checks.append((lab, list(hyps) + list(sink.guard_stack), f))
+                    for f in ps.facts[len(base.facts):]:
+                        sink.facts.append(z3.Implies(cond, f))
+            vals = [(cond, (avals if kind == 'a' else lvals)[nm]) for cond, avals, lvals, ps in paths]
+            if any(not is_num(v) for _, v in vals):
+                if len(vals) == 1:
+                    return vals[0][1]
+                # None on some branches, a record of one class on the others: an optional record
+                nones = [c for c, v in vals if v is None]
+                objs = [(c, v) for c, v in vals if isinstance(v, SObj)]
+                if len(nones) + len(objs) == len(vals) and len(objs) == 1 and nones \
+                        and getattr(objs[0][1], 'none_if', None) is None:
+                    o = objs[0][1]
+                    return SObj(o.cls, dict(o.fields), none_if=z3.simplify(z3.Or(*nones)))
+                raise Unsupported('non-scalar value merged over the branches of a loop body')
+            for cond, avals, lvals, ps in reversed(paths):
+                v = (avals if kind == 'a' else lvals)[nm]
+                val = v if val is None else self.ite(cond, v, val)
             return val
 
         # trial iteration: structure and in-body obligations at a fresh index
@@ -1201,6 +1220,10 @@ class Executor:
 
     def compare(self, op, a, b, st):
         if isinstance(op, (ast.Is, ast.IsNot)):
+            if (a is None or b is None) and isinstance(b if a is None else a, SObj) \
+                    and getattr(b if a is None else a, 'none_if', None) is not None:
+                cond = (b if a is None else a).none_if
+                return z3.Not(cond) if isinstance(op, ast.IsNot) else cond
             if a is None or b is None:
                 other = b if a is None else a
                 r = other is None
@@ -1294,6 +1317,8 @@ class Executor:
         return out
 
     def getattr(self, v, attr, st, node=None):
+        if isinstance(v, SObj) and getattr(v, 'none_if', None) is not None and not self.cl_mode:
+            st.check(f'attribute {attr} of a value that may be None', z3.Not(v.none_if))
         if isinstance(v, SObj):
             if attr in v.fields:
                 return [(st, v.fields[attr])]
